@@ -331,7 +331,13 @@ def check_L1(S, p):
                 rec.append(rng.choice([0, 1, 2, 3, 4]))
         reqs.append({"op": "site_hist", "samples": samples, "map": E.map_json(smap), "project": None, "records": [rec], "fresh": False})
         meta.append((smap, order, want_idx))
-    for (smap, order, want_idx), r in zip(meta, harness.run_all(reqs)):
+    def results():
+        # in batches: each reply carries the whole (up to 3^8-cell) spectrum, thousands of them do not fit in memory at once
+        for b in range(0, len(reqs), 300):
+            for r_ in harness.run_all(reqs[b:b + 300]):
+                r_.get("scs", {}).pop("data", None)
+                yield r_
+    for (smap, order, want_idx), r in zip(meta, results()):
         S.count("L1_maps")
         sizes = [sum(1 for s, q in dict(smap).items() if q == lab) for lab in order]
         wit = {"level": "L1", "map": E.map_json(smap)}
